@@ -327,6 +327,73 @@ def run(ctx):
         else:
             ctx.unrecognised("C16-b", b.key, "add shape", "Add<usize> does not end in StreamId::new(..): %s"
                              % [pa.vfmt(p.ret) for p in ps])
+    # round trip and saturation over boundary values, evaluated on the extracted expressions (no h3 code is run)
+    parts = {}
+    for nm in ("new", "index", "dir", "initiator"):
+        bb_ = prog.one("%s::%s" % (S, nm))
+        parts[nm] = [p for p in ru.all_paths(ctx, "C16-b", bb_) if p.end == "return"] if bb_ else None
+    addb = prog.one("<%s as core::ops::arith::Add<usize>>::add" % S)
+    if all(parts.values()) and addb:
+        def ev_new(index, d, i):
+            def sub(v):
+                if v == ("param", 1, ()):
+                    return index
+                if v[0] == "discr" and v[1] == ("param", 2, ()):
+                    return d
+                if v[0] == "discr" and v[1] == ("param", 3, ()):
+                    return i
+                return None
+            r = parts["new"][0].ret
+            return expr.fold(r[3][0], consts, sub)
+
+        def ev_get(nm, idv):
+            def sub(v):
+                if v == ("param", 1, (".0",)) or v == ("param", 1, ("0",)):
+                    return idv
+                return None
+            hit = expr.decide(parts[nm], consts, sub)
+            outs = set()
+            for p in hit:
+                if nm == "index":
+                    outs.add(expr.fold(p.ret, consts, sub))
+                else:
+                    outs.add(p.ret_shape().split("::")[-1])
+            return outs
+        bad = []
+        top = (1 << 60) - 1
+        for index in (0, 1, 2, 5, 1 << 30, top - 1, top):
+            for d, dn in ((0, "Bi"), (1, "Uni")):
+                for i, inn in ((0, "Client"), (1, "Server")):
+                    idv = ev_new(index, d, i)
+                    if idv is None or idv > MAX:
+                        bad.append(("new", index, dn, inn, idv))
+                        continue
+                    if idv & 3 != (d << 1 | i) or idv >> 2 != index:
+                        bad.append(("layout", index, dn, inn, idv))
+                    if ev_get("index", idv) != {index} or ev_get("dir", idv) != {dn} or ev_get("initiator", idv) != {inn}:
+                        bad.append(("accessors", index, dn, inn, ev_get("index", idv), ev_get("dir", idv), ev_get("initiator", idv)))
+        ctx.check(not bad, "C16-b", S, "new/index/dir/initiator round trip over boundary indices (RFC 9000 2.1 layout)",
+                  "stream id composition and accessors disagree: %s" % bad[:3], "28 ids")
+        aps = [p for p in ru.all_paths(ctx, "C16-b", addb) if p.end == "return"]
+        bad = []
+        if len(aps) == 1 and aps[0].ret[0] == "call":
+            newidx = aps[0].ret[2][0]
+            for index in (0, 1, top - 2, top - 1, top):
+                for n in (0, 1, 2, 3, (1 << 32), (1 << 64) - 1):
+                    def sub(v, index=index, n=n):
+                        if v[0] == "call" and v[1] == S + "::index":
+                            return index
+                        if v == ("param", 2, ()):
+                            return n
+                        return None
+                    got = expr.fold(newidx, consts, sub)
+                    if got != min(index + n, top):
+                        bad.append((index, n, got))
+        else:
+            bad.append("shape")
+        ctx.check(not bad, "C16-b", addb.key, "id + n saturates at the largest index of the same kind (boundary values)",
+                  "Add<usize> yields a wrong index for (index, n, got) = %s; it must be min(index + n, 2^60 - 1) so the id never exceeds 2^62 - 1" % bad[:3],
+                  "30 cases")
     b = ru.need(ctx, "C16-b", S + "::is_request")
     if b:
         ps = [p for p in ru.all_paths(ctx, "C16-b", b) if p.end == "return"]
